@@ -68,6 +68,7 @@ type SimConn struct {
 	EmptyReads int
 	Started    bool
 	Stalled    bool
+	ClosedBefore int // Close calls seen before teardown began (teardown releases parked goroutines, whose deferred Close then runs)
 	lastAlloc  uint64
 
 	// duplex mode (a real client goroutine on the other end, engine E2)
@@ -212,6 +213,12 @@ func (c *SimConn) Read(p []byte) (int, error) {
 		if len(c.pending) == 0 {
 			if c.cc.NoEOF {
 				c.rec("idle", "")
+				if !c.rt.K.enabled {
+					// engine E1: the peer stays silent; this goroutine is durably
+					// blocked until teardown releases it
+					<-c.rt.never
+					runtime.Goexit()
+				}
 				c.rt.K.Block(c.task, "idle", neverReady)
 				// only reached at teardown
 				return 0, errSimReset
